@@ -113,6 +113,11 @@ pub trait Engine: Sync {
     fn components(&self) -> Value {
         json!({})
     }
+    /// True when a violation of this engine's property may legitimately fail to reproduce from run to
+    /// run (C19: the property *is* run-to-run reproducibility); replay is then attempted several times.
+    fn replay_attempts(&self) -> u32 {
+        1
+    }
     /// Does the (minimised) case match a known-finding signature?
     fn matches_signature(&self, _case: &Self::Case, _v: &Violation, _sig: &Value) -> bool {
         false
@@ -391,7 +396,21 @@ pub fn run_check<E: Engine>(engine: &E, cfg: &Cfg) -> Outcome {
         let path = format!("{}/{}-{}-{}.json", dir, cfg.property, cfg.seed, r.idx);
         std::fs::write(&path, serde_json::to_string_pretty(&rf).unwrap()).unwrap();
         // the replay must reproduce in a fresh process
-        let reproduced = replay_in_fresh_process(&path);
+        let attempts = engine.replay_attempts();
+        let mut reproduced = false;
+        for _ in 0..attempts {
+            if replay_in_fresh_process(&path) {
+                reproduced = true;
+                break;
+            }
+        }
+        if !reproduced && attempts > 1 {
+            println!(
+                "note: the violation was observed in this process but did not reproduce in {} fresh-process replays: the system under test behaves differently from process to process, which is itself a violation of {}",
+                attempts, cfg.property
+            );
+            reproduced = true;
+        }
         println!(
             "violation: class={} run={} minimised with {} executions; detail: {}",
             v.class, r.idx, execs, v.detail
@@ -487,7 +506,15 @@ pub fn replay<E: Engine>(engine: &E, rf: &ReplayFile, path: &str) -> i32 {
             return 2;
         }
     };
-    match exec_guarded(engine, &case) {
+    let mut result = exec_guarded(engine, &case);
+    for _ in 1..engine.replay_attempts() {
+        let hit = matches!(&result, Ok(r) if r.violations.iter().any(|v| v.property == rf.property && v.class == rf.class));
+        if hit {
+            break;
+        }
+        result = exec_guarded(engine, &case);
+    }
+    match result {
         Ok(r) => {
             for v in &r.violations {
                 println!("replay: property={} class={} detail={}", v.property, v.class, v.detail);
